@@ -18,6 +18,7 @@ PARTIAL = [("c15_total (parse_file and interrogate terminate without signal on e
            ("c15_error_no_output", "that a run which reported a parse error exits non-zero and leaves no output files is checked on every explored input, not proved")]
 
 TIMEOUT = 15
+SLOW = []      # inputs that needed more than TIMEOUT seconds but did finish
 
 
 def classify(rc, err):
@@ -66,7 +67,14 @@ def run_case(bdir, root, ix, name, data, args_extra=()):
             p = subprocess.run(cmd, cwd=d, stdout=subprocess.DEVNULL, stderr=subprocess.PIPE, timeout=TIMEOUT, env=env)
             rc, err = p.returncode, p.stderr[-4000:].decode("latin-1")
         except subprocess.TimeoutExpired:
-            rc, err = "timeout", ""
+            # slow is not stuck: a busy machine or the sanitizer build can push a deep (but bounded) include / instantiation chain past the
+            # limit; it is a hang only if it does not come back with twelve times the limit either
+            try:
+                p = subprocess.run(cmd, cwd=d, stdout=subprocess.DEVNULL, stderr=subprocess.PIPE, timeout=TIMEOUT * 12, env=env)
+                rc, err = p.returncode, p.stderr[-4000:].decode("latin-1")
+                SLOW.append(name)
+            except subprocess.TimeoutExpired:
+                rc, err = "timeout", ""
         bad = classify(rc, err)
         extra = None
         if tool == "interrogate" and bad is None:
@@ -125,6 +133,7 @@ def run(ck):
                 data = bytesgen.mutate(rng, data, corpus)
             cases.append(("mutant-of:" + name, data))
         explore(ck, bdir, wd / "std", cases, "std")
+        ck.extra["slow_but_finished"] = SLOW
         # ---- sanitizer build -------------------------------------------------------------------------------------------------------------
         abdir = iglib.build_repo("asan")
         n_direct = len(bytesgen.EDGE) + len(corpus)      # the edge list and the unmutated corpus go through the sanitizer build in full, the mutants in part
